@@ -83,7 +83,30 @@ def run(prog: Program, ctx: Ctx) -> None:  # noqa: PLR0912,PLR0915
         if sink:
             n_sinks += 1
             ok = (q, sink) in ALLOWED_SINKS
-            ctx.ob("R1", f"{q}|{sink}", ok, ALLOWED_SINKS.get((q, sink), f"code-executing call `{norm(call)}` outside the tabled owners"), loc)
+            why = ALLOWED_SINKS.get((q, sink))
+            if not ok and fn is not None:
+                # a private helper every call site of which lies in the tabled owner (the call was moved out of it, not opened to others)
+                from sa.util import private_call_sites
+
+                def owners_of(f_: FunctionInfo, stack: tuple = ()) -> set[str] | None:
+                    if (f_.qualname, sink) in ALLOWED_SINKS:
+                        return {f_.qualname}
+                    sites = private_call_sites(prog, f_) if f_.qualname not in stack else []
+                    if not sites:
+                        return None
+                    out: set[str] = set()
+                    for g_, _c in sites:
+                        o_ = owners_of(g_, (*stack, f_.qualname))
+                        if o_ is None:
+                            return None
+                        out |= o_
+                    return out
+
+                owners = owners_of(fn)
+                if owners:
+                    ok = True
+                    why = f"private helper of {sorted(owners)[0].split('.')[-1]} (every call site lies there): " + ALLOWED_SINKS[(sorted(owners)[0], sink)]
+            ctx.ob("R1", f"{q}|{sink}", ok, why or f"code-executing call `{norm(call)}` outside the tabled owners", loc)
         if name == "compile" or (isinstance(call.func, ast.Name) and call.func.id == "compile"):
             n_compile += 1
             flags = kwarg(call, "flags") or (call.args[3] if len(call.args) > 3 else None)
